@@ -61,6 +61,7 @@ class C10(Check):
         return env.n(200, 4000)
 
     def enumerated(self, env):
+        yield from self._aes_first(env)
         # empty archive and archives without streams
         if env.mine(1):
             yield {"src": "py", "history": {"sessions": [{"filters": None, "entries": []}], "header": "encoded", "target": "path", "password": None},
@@ -82,6 +83,19 @@ class C10(Check):
                     {"how": "writestr", "data": ["gen", "text", 120, i], "mode": 0o644, "mtime_ns": 10 ** 18, "name": "m1"},
                     {"how": "writestr", "data": ["hex", "9d0ad96d"], "mode": 0o644, "mtime_ns": 10 ** 18, "name": "m2"}]}],
                     "header": "encoded", "target": "path", "password": pw}, "absent": ["m3", "m1x"], "supply_pw": bool(pw)}
+
+    def _aes_first(self, env):
+        # the encryption coder named first (py7zr accepts any position); opened with and without supplying the password
+        i = 500
+        for f in ([{"id": G.F_AES}, {"id": G.F_BZIP2}], [{"id": G.F_AES}, {"id": G.F_DEFLATE}], [{"id": G.F_AES}, {"id": G.F_ZSTD, "level": 1}],
+                  [{"id": G.F_AES}, {"id": G.F_COPY}], [{"id": G.F_AES}], [{"id": G.F_LZMA2, "preset": 0}, {"id": G.F_AES}], None):
+            for supply in (False, True):
+                i += 1
+                if env.mine(i):
+                    yield {"src": "py", "history": {"sessions": [{"filters": f, "entries": [
+                        {"how": "writestr", "data": ["gen", "text", 90, i], "mode": 0o644, "mtime_ns": 10 ** 18, "name": "m1"},
+                        {"how": "writestr", "data": ["hex", "0a0b"], "mode": 0o644, "mtime_ns": 10 ** 18, "name": ".m2"}]}],
+                        "header": "encoded", "target": "path", "password": "pw"}, "absent": ["m2", "m1/"], "supply_pw": supply}
 
     def execute(self, case, env):
         SS.RECORD.clear()
